@@ -15,6 +15,7 @@ import (
 	"verif/mc/props/c07"
 	"verif/mc/props/c14"
 	"verif/mc/props/c15"
+	"verif/mc/props/c16"
 )
 
 type prop struct {
@@ -24,6 +25,7 @@ type prop struct {
 }
 
 var props = map[string]prop{
+	"C16": {"model_checking", c16.Main, func(r *core.Run, mode string, raw []byte) { c16.Replay(r, mode, raw) }},
 	"C14": {"model_checking", c14.Main, func(r *core.Run, mode string, raw []byte) { c14.Replay(r, mode, raw) }},
 	"C15": {"model_checking", c15.Main, func(r *core.Run, mode string, raw []byte) { c15.Replay(r, raw) }},
 	"C07": {"model_checking", c07.Main, func(r *core.Run, mode string, raw []byte) { c07.Replay(r, raw) }},
